@@ -182,15 +182,32 @@ func RunC18(r *sim.Run) {
 		return true, rs.Accept
 	}
 
-	reclaimedChecked, liveChecked := 0, 0
+	reclaimedChecked, liveChecked, blips := 0, 0, 0
 	nSteps := t.Range(25, 90)
 	for step := 0; step < nSteps && !r.Violated(); step++ {
 		r.Step = step
-		weights := []int{8, 6, 6, 3, 2, 2, 0}
+		weights := []int{8, 6, 6, 3, 2, 2, 0, 2}
 		if storeKind == "k8s" {
 			weights[6] = 1
 		}
 		switch t.Pick(weights) {
+		case 7: // a short network blip: one of an instance's heartbeats is lost, the next ones arrive again
+			in := insts[t.Draw(len(insts))]
+			if in.silent || !in.gw.Alive {
+				break
+			}
+			d := time.Duration(t.Range(1050, 1900)) * time.Millisecond
+			for _, rp := range w.Replicas {
+				w.Net.Partition(in.gw.Name, rp.Name, true)
+			}
+			w.Advance(d)
+			for _, rp := range w.Replicas {
+				w.Net.Partition(in.gw.Name, rp.Name, false)
+			}
+			r.Fault("partition")
+			blips++
+			r.Logf("instance %s unreachable for %v", in.gw.Name, d)
+			w.Advance(time.Duration(t.Range(100, 1500)) * time.Millisecond)
 		case 6: // somebody else removes the API object of an instance's condition (kubectl delete, a cleanup job)
 			in := insts[t.Draw(len(insts))]
 			if w.Cond.DirectDelete(condName(up, in.id)) {
@@ -491,6 +508,7 @@ func RunC18(r *sim.Run) {
 	r.SimSecs = w.Now().Seconds()
 	r.ProbeN("dead_instance_checks", reclaimedChecked)
 	r.ProbeN("live_instance_checks", liveChecked)
+	r.ProbeN("short_network_blips", blips)
 	r.Nontrivial = reclaimedChecked > 0 && liveChecked > 0
 	r.Sample = map[string]interface{}{"replicas": nRep, "store": storeKind, "store_period": period.String(), "identities": idStyle, "instances": len(insts), "dead_checks": reclaimedChecked, "live_checks": liveChecked}
 }
